@@ -167,6 +167,10 @@ type RPCSpec struct {
 	Decoy bool `json:"decoy,omitempty"`
 	// ServerSeqStart: the reference servers start their seq_no counters there (even; e.g. 2^31-6: the counter wraps)
 	ServerSeqStart int32 `json:"server_seq_start,omitempty"`
+	// NewSessionUID: the unique_id field of the new_session_created notifications: "" = a different number each time,
+	// "zero" = 0 (as good a random number as any other), "same" = one number for the whole scenario (the server session
+	// is the same one; the notification is repeated with the salt valid by then)
+	NewSessionUID string `json:"new_session_uid,omitempty"`
 }
 
 // Step ops:
